@@ -10,6 +10,9 @@ CHECKS = {
  "C15": dict(level="exploration", technique="reference-model monitor + logical step counter on the real Aliases/SubprocSpec objects",
    text="Random alias graphs (cycles, self-loops, decorator / return_command / exec-string / callable aliases) are resolved through the real Aliases.get and SubprocSpec.build in three insertion orders; a frame counter on eval_alias decides termination, a 25-line reference expander decides the result, decorator order and the user-arguments-are-a-suffix invariant; callable aliases re-entering themselves through the execer exercise $__ALIAS_STACK.",
    note="Alias tokens in generated tables are free of $/~ so expand_path is the identity on them; the reference expander encodes the documented leftmost-expansion rule; graphs larger than 8 aliases are not generated.", ref="§2 C15"),
+ "C14": dict(level="exploration", technique="invariant monitor over before/after directory listings and tables of the real GC threads",
+   text="Thousands of generated collections of real history files (live/stale locks, corrupt, truncated, empty members, custom history file) and SQLite tables are collected by the real JsonHistoryGC / SqliteHistoryGC threads with limits at every boundary the collection defines; the surviving set is judged with set-level rules (locked never deleted, deleted set is an oldest-first prefix, kept set fits and is maximal, nothing deleted when within the limit, refusal rule).",
+   note="Oracle = rules of DESIGN Appendix A.3; the refuse-unless-forced rule is judged only outside the ambiguous band; ages within 5 s of a seconds limit are not generated.", ref="§2 C14, A.3"),
 }
 NOT_BUILT = "check not built yet in this session (planned, see DESIGN.md §2); nothing is claimed for it"
 def main():
